@@ -22,7 +22,7 @@ from harness import values as V
 from harness.core import cbool, clist, cnat, err_name
 
 PID = "C19"
-TRANSLATE = ["EqCsv.v"]     # translator tie: coq/gen_proofs/EqCsv.v is re-proved against definitions regenerated from /repo
+TRANSLATE = ["EqCsv.v", "EqCsvReader.v"]     # translator tie: coq/gen_proofs/EqCsv.v is re-proved against definitions regenerated from /repo
 PRELUDE = ("From Coq Require Import List.\nImport ListNotations.\n"
            "From Serif Require Import Base.PyVal Model.Csv Corr.C19.")
 FAILING = "C19.failing"
